@@ -1,6 +1,7 @@
 package types
 
 import (
+	"encoding/json"
 	"fmt"
 	"github.com/f1bonacc1/process-compose/src/command"
 	"github.com/f1bonacc1/process-compose/src/health"
@@ -106,8 +107,8 @@ func (p *ProcessConfig) Compare(another *ProcessConfig) bool {
 		!reflect.DeepEqual(p.LivenessProbe, another.LivenessProbe) ||
 		!reflect.DeepEqual(p.ReadinessProbe, another.ReadinessProbe) ||
 		!reflect.DeepEqual(p.ShutDownParams, another.ShutDownParams) ||
-		!reflect.DeepEqual(p.Vars, another.Vars) ||
-		!reflect.DeepEqual(p.Extensions, another.Extensions) ||
+		!equalLooseMaps(p.Vars, another.Vars) ||
+		!equalLooseMaps(p.Extensions, another.Extensions) ||
 		!reflect.DeepEqual(p.DependsOn, another.DependsOn) ||
 		!reflect.DeepEqual(p.RestartPolicy, another.RestartPolicy) ||
 		!reflect.DeepEqual(p.Environment, another.Environment) ||
@@ -119,6 +120,23 @@ func (p *ProcessConfig) Compare(another *ProcessConfig) bool {
 
 	return true
 }
+
+// equalLooseMaps compares two maps of untyped values by their JSON encoding:
+// a configuration that travelled through the REST API holds float64 where the
+// loader produced int (e.g. PC_REPLICA_NUM), which reflect.DeepEqual treats
+// as different although nothing changed.
+func equalLooseMaps(a, b map[string]any) bool {
+	if len(a) == 0 && len(b) == 0 {
+		return true
+	}
+	ja, errA := json.Marshal(a)
+	jb, errB := json.Marshal(b)
+	if errA != nil || errB != nil {
+		return reflect.DeepEqual(a, b)
+	}
+	return string(ja) == string(jb)
+}
+
 func (p *ProcessConfig) AssignProcessExecutableAndArgs(shellConf *command.ShellConfig, elevatedShellArg string) {
 	if p.Command != "" || len(p.Entrypoint) == 0 {
 		if len(p.Entrypoint) > 0 {
